@@ -1,5 +1,114 @@
-(* C12 - placeholder while the check is being built *)
-From Coq Require Import List ZArith.
-Theorem C12_placeholder : True.
-Proof. exact I. Qed.
-Print Assumptions C12_placeholder.
+(* C12 - RX1 / RX2 / ping-slot parameters follow the regional rules; invalid
+   arguments give an error, never a panic.
+   Statement file: each theorem is closed by [exact] of a lemma proved in
+   theories/Band/Rx1Proofs.v, followed by Print Assumptions.
+   [band_configs] = the tables of band.GetConfig(name, repeater, dwell) for the 14
+   band names x {false,true} x {no limit, 400 ms}, dumped from the live code on
+   every run (LWGen.BandGen); [get_*] = the model of the lookup code
+   (Band/Lookup.v); [spec_*], [dr_defined_down], [region_of] = the specification
+   (Band/Rx1Spec.v, Band/Regional.v); [c12_known_cells] = the recorded findings
+   (known/C12.json -> LWGen.KnownGen).  All arguments range over all of Z. *)
+From Coq Require Import List ZArith Bool String.
+From LW Require Import Base.Outcome Band.Types Band.Lookup Band.Regional Band.Rx1Spec Band.Rx1Proofs.
+From LWGen Require Import BandGen KnownGen.
+Import ListNotations.
+Open Scope Z_scope.
+
+(* errors, never panics - for any tables whatsoever and all integer arguments *)
+Theorem C12_rx1_no_panic : forall (c : band_cfg) (dr off : Z), get_rx1_dr c dr off <> Panic.
+Proof. exact rx1_no_panic_any. Qed.
+Print Assumptions C12_rx1_no_panic.
+
+(* negative numbers, data-rates above 15 and offsets above 7 are rejected with an error *)
+Theorem C12_rx1_invalid_is_error : forall c, In c band_configs -> forall dr off : Z,
+  dr < 0 \/ off < 0 \/ dr > 15 \/ off > 7 -> get_rx1_dr c dr off = Err.
+Proof. intros c Hc dr off H. apply rx1_invalid_err; [exact Hc | now apply rx1_args_invalid_iff]. Qed.
+Print Assumptions C12_rx1_invalid_is_error.
+
+(* every accepted (uplink DR, RX1 offset) pair maps to a data-rate that exists for
+   downlink in that band - except the recorded cells *)
+Theorem C12_rx1_result_defined : forall c, In c band_configs -> forall dr off r : Z,
+  get_rx1_dr c dr off = Ok r ->
+  dr_defined_down (c_tab c) r = true \/ In (c_name c, dr, off) c12_known_cells.
+Proof. exact rx1_defined. Qed.
+Print Assumptions C12_rx1_result_defined.
+
+(* ... and each recorded cell is a real violation of the unconditional statement:
+   the pair is accepted and the result is not a defined downlink data-rate *)
+Theorem C12_rx1_result_defined_refuted : forall name dr off, In (name, dr, off) c12_known_cells ->
+  exists c r, In c band_configs /\ c_name c = name /\ get_rx1_dr c dr off = Ok r
+              /\ dr_defined_down (c_tab c) r = false.
+Proof. exact rx1_known_refuted. Qed.
+Print Assumptions C12_rx1_result_defined_refuted.
+
+(* where the region defines the RX1 data-rate by a formula - max(DR - offset, floor)
+   with the dwell-time floor for AS923; min(13, max(8, DR + 10|8 - offset)) for
+   US915|AU915 - the result equals it (domain and value: Rx1Spec.spec_rx1_formula) *)
+Theorem C12_rx1_formula : forall c, In c band_configs -> forall reg, region_of (c_name c) = Some reg ->
+  forall dr off e : Z, spec_rx1_formula reg (c_dwell c) dr off = Some e ->
+  get_rx1_dr c dr off = Ok e.
+Proof. exact rx1_formula. Qed.
+Print Assumptions C12_rx1_formula.
+
+(* over the positive offsets 0..5 the RX1 data-rate never increases and moves down by at
+   most one defined downlink data-rate per offset unit *)
+Theorem C12_rx1_monotone_step : forall c, In c band_configs -> forall dr off r0 r1 : Z,
+  0 <= off < 5 ->
+  get_rx1_dr c dr off = Ok r0 -> get_rx1_dr c dr (off + 1) = Ok r1 ->
+  r1 <= r0 /\ forall d, r1 < d < r0 -> dr_defined_down (c_tab c) d = false.
+Proof. exact rx1_step. Qed.
+Print Assumptions C12_rx1_monotone_step.
+
+(* for every uplink channel i (frequency f): the RX1 channel index obtained from i and the
+   RX1 frequency obtained from f denote the same existing downlink channel, the one the
+   region's rule selects (same channel | i mod 8 | i mod 48) *)
+Theorem C12_rx1_channel : forall c, In c band_configs -> forall reg, region_of (c_name c) = Some reg ->
+  forall i u, zindex (t_up (c_tab c)) i = Ok u ->
+  exists d, get_rx1_channel_index c i = Ok (spec_rx1_channel reg i)
+            /\ zindex (t_down (c_tab c)) (spec_rx1_channel reg i) = Ok d
+            /\ get_rx1_frequency c (ch_freq u) = Ok (ch_freq d)
+            /\ (match reg with RUS915 | RAU915 | RCN470 => True | _ => ch_freq d = ch_freq u end).
+Proof.
+  intros c Hc reg Hreg i u Hu. apply rx1_channel_ok_spec. now apply rx1_channel.
+Qed.
+Print Assumptions C12_rx1_channel.
+
+(* ping-slot frequency: the region's fixed frequency, or hopping over the 8 downlink
+   channels by (DevAddr + floor(beacon_time / 128 s)) mod 8; all DevAddr >= 0 and all
+   beacon times >= 0 ns *)
+Theorem C12_ping_slot : forall c, In c band_configs -> forall reg, region_of (c_name c) = Some reg ->
+  forall devaddr beacon_ns : Z, 0 <= devaddr -> 0 <= beacon_ns ->
+  get_ping_slot_frequency c devaddr beacon_ns = Ok (spec_ping_slot reg devaddr beacon_ns).
+Proof. exact ping_slot. Qed.
+Print Assumptions C12_ping_slot.
+
+(* RX2 defaults: the model of GetDefaults equals what the live code returned to the
+   dumper, equals the Regional Parameters values, and the RX2 data-rate exists for downlink *)
+Theorem C12_rx2_defaults : forall c, In c band_configs -> forall reg, region_of (c_name c) = Some reg ->
+  get_defaults c = c_defaults c /\ get_defaults c = spec_defaults reg
+  /\ dr_defined_down (c_tab c) (d_rx2_dr (get_defaults c)) = true.
+Proof. exact rx2_defaults. Qed.
+Print Assumptions C12_rx2_defaults.
+
+(* every configuration belongs to a region of the specification *)
+Theorem C12_regions_total : forall c, In c band_configs -> exists reg, region_of (c_name c) = Some reg.
+Proof. exact region_known. Qed.
+Print Assumptions C12_regions_total.
+
+(* non-vacuity: the configurations exist, pairs are accepted, rejected and computed *)
+Example C12_example :
+  List.length band_configs = 56%nat
+  /\ (exists c, In c band_configs /\ c_name c = "US915"%string
+                /\ get_rx1_dr c 4 1 = Ok 13 /\ get_rx1_dr c 4 (-1) = Err /\ get_rx1_dr c 7 0 = Err
+                /\ get_ping_slot_frequency c 4294967295 (129 * second) = Ok 923300000)
+  /\ (exists c, In c band_configs /\ c_name c = "AS923-2"%string /\ c_dwell c = true
+                /\ get_rx1_dr c 3 5 = Ok 2 /\ get_rx1_dr c 3 7 = Ok 5).
+Proof.
+  assert (L : List.length band_configs = 56%nat) by (vm_compute; reflexivity).
+  pose (d := mkCfg "" false false KEU868 false 0 "" (mkDefaults 0 0 0 0 0 0) (mkTables false 0 0 [] [] [] [] [] [])).
+  split; [exact L|]. split.
+  - exists (nth 52 band_configs d). split; [apply nth_In; rewrite L; repeat constructor|].
+    vm_compute. repeat split; reflexivity.
+  - exists (nth 5 band_configs d). split; [apply nth_In; rewrite L; repeat constructor|].
+    vm_compute. repeat split; reflexivity.
+Qed.
